@@ -40,7 +40,7 @@ def run(tier, scratch, drv, only_cases=None):
                         cases.append({"n": len(cases) + 1, "cfg": {"transport": tr, "fault": f, "moment": m,
                                                                    "seed": vlib.seed() * 10 + rep}})
         cases.append({"n": len(cases) + 1, "cfg": {"transport": "tcp", "fault": "none", "moment": "ping", "seed": vlib.seed()}})
-        for st in ("finishing", "finished", "failed", "new", "negotiating", "authenticating"):
+        for st in ("finishing", "finished", "failed", "new", "negotiating", "negotiating-empty", "authenticating"):
             cases.append({"n": len(cases) + 1, "cfg": {"transport": "tcp", "fault": st, "moment": "handshake",
                                                        "seed": vlib.seed()}})
     else:
